@@ -209,9 +209,13 @@ func (hc *HashChain) Fill(argb []uint32, quality int, xsize, ysize int, lowEffor
 		chainSlice[size-2] = uint32(hashToFirstIndex[getPixPairHash64(argb[size-2:])])
 	}
 
-	// Decide between parallel and serial second pass.
+	// Decide between the two variants of the second pass. They do not find
+	// the same matches (the parallel variant extends matches to the left in a
+	// separate pass), so the choice must not depend on GOMAXPROCS: the output
+	// would differ between machines. With a single worker the parallel
+	// variant simply runs its match-finding phase in one goroutine.
 	numWorkers := runtime.GOMAXPROCS(0)
-	if numWorkers > 1 && size > 50000 && !lowEffort {
+	if size > 50000 && !lowEffort {
 		hc.fillParallel(argb, xsize, size, iterMax, winSize, numWorkers)
 	} else {
 		hc.fillSerial(argb, xsize, size, iterMax, lowEffort, winSize)
